@@ -144,7 +144,56 @@ func (r *Run) Thorough() bool { return r.Tier == "thorough" }
 
 // SetDeadline installs an internal deadline; Expired() turns true after it and
 // the harness is expected to stop enumerating, call Capped and finish.
-func (r *Run) SetDeadline(d time.Duration) { r.deadline = r.start.Add(d) }
+// The budget is scaled by BudgetScale(): internal deadlines exist to bound the run on an idle 16-core machine, not to
+// cut an exhaustive enumeration short because the machine is shared.
+func (r *Run) SetDeadline(d time.Duration) {
+	r.deadline = r.start.Add(Budget(d))
+	if f := BudgetScale(); f != 1 {
+		r.mu.Lock()
+		r.Extra["budget_scale"] = fmt.Sprintf("%.2f (internal deadlines stretched: machine load / VERIF_BUDGET_SCALE)", f)
+		r.mu.Unlock()
+	}
+}
+
+var (
+	scaleOnce sync.Once
+	scale     = 1.0
+)
+
+// BudgetScale is VERIF_BUDGET_SCALE when set (> 0), otherwise the 1-minute load average per CPU at start-up,
+// clamped to [1, 4]. The enumeration bounds never depend on it, only how long a run may take before it gives up
+// and reports exhaustive:false.
+func BudgetScale() float64 {
+	scaleOnce.Do(func() {
+		if f, err := strconv.ParseFloat(os.Getenv("VERIF_BUDGET_SCALE"), 64); err == nil && f > 0 {
+			scale = f
+			return
+		}
+		b, err := os.ReadFile("/proc/loadavg")
+		if err != nil {
+			return
+		}
+		fs := strings.Fields(string(b))
+		if len(fs) == 0 {
+			return
+		}
+		l, err := strconv.ParseFloat(fs[0], 64)
+		if err != nil {
+			return
+		}
+		f := l / float64(runtime.NumCPU())
+		if f > 4 {
+			f = 4
+		}
+		if f > 1 {
+			scale = f
+		}
+	})
+	return scale
+}
+
+// Budget stretches a wall-clock allowance by BudgetScale().
+func Budget(d time.Duration) time.Duration { return time.Duration(float64(d) * BudgetScale()) }
 func (r *Run) Expired() bool               { return !r.deadline.IsZero() && time.Now().After(r.deadline) }
 
 // Capped records that the space was not enumerated completely.
